@@ -216,6 +216,12 @@ class Harness(cm.BaseA):
                 V.append(("C11/report", f"report of {n} has extra content"))
         for d in cm.callers_arrays_unchanged(W, config):
             V.append(("C11/snapshot-mutated", d))
+        for n, lw in lws.items():
+            mine = lw.volumes
+            keep = mine.copy()
+            mine[...] = -1.0  # what the caller does to its copy is its own business
+            if not np.array_equal(lw.volumes, keep) or not np.array_equal(lw._history[-1], keep):
+                V.append(("C11/snapshot-mutated", f"writing into the array returned by {n}.volumes changed the labware"))
         if changed:
             res["nontrivial"] = self.canon(W, config)
         return res
